@@ -16,7 +16,7 @@ RULE = ('case = header program: object kind (Response / HTTPResponse / HTTPError
         'bool, None, bytes, list, tuple, dict. Oracle vs a model (name -> list of texts): a value whose text has CR/LF/NUL must raise and nothing '
         'with CR/LF/NUL is ever in headerlist / the start_response list; a clean str/int/float/bool/None is accepted; every emitted value is str, '
         'Latin-1 encodable and .encode(latin1).decode(utf8) == str(value); values of a name are emitted once each in order; blacklisted entity '
-        'headers are absent for 204/304; default Content-Type only when allowed and not set. Non-trivial = an injected control character, a '
+        'headers are absent for 204/304; default Content-Type only when allowed and not set. Plus: a 204 / 304 response with blacklisted headers on one thread against a plain request on another thread of the same application, every single-preemption schedule. Non-trivial = an injected control character, a '
         'non-ASCII or non-str value, a multi-valued header, or a 204/304 status with a blacklisted header present; distinct by case hash.')
 ASSUMPTIONS = ['header names are given in canonical case (the blacklist is keyed on canonical names)',
                'HeaderDict.update, list-valued setdefault and cookie attributes are not among the setters the property lists (not judged)']
@@ -360,7 +360,65 @@ def check_case(ctx, case):
         ctx.nontrivial(case, sample=case)
 
 
+def check_threaded(ctx, case):
+    """A 204/304 response with blacklisted entity headers on one thread while another thread serves any request on the same
+    application: the blacklist must hold for every single-preemption schedule (the harness owns the schedule)."""
+    import ombott
+    from vlib.sched import Scheduler, BIG
+    from checks.c08_threads import relevant
+    status = case['status']
+    app = ombott.Ombott()
+
+    def nm():
+        rs = app.response
+        rs.status = status
+        for k in sorted(BAD[status]) + ['X-Keep']:
+            rs.headers[k] = 'v-' + k
+        rs.headers.append('Content-Type', 'second/value')
+        return ''
+
+    def ok():
+        app.response.headers['Content-Language'] = 'en'
+        app.response.headers['X-Other'] = 'é'
+        return 'ok'
+    app.route('/nm', callback=nm)
+    app.route('/ok', callback=ok)
+
+    def run(order, schedule):
+        res = {}
+        fns = [lambda: res.__setitem__('nm', call_app(app, make_environ('GET', '/nm'))), lambda: res.__setitem__('ok', call_app(app, make_environ('GET', '/ok')))]
+        if order:
+            fns.reverse()
+        sc = Scheduler(fns, schedule, relevant)
+        sc.run()
+        for e in sc.errors:
+            if e is not None:
+                raise CheckFailure(f'thread raised {fmt_exc(e)} under schedule {schedule}')
+        r = res['nm']
+        if r.code != status:
+            raise CheckFailure(f'threaded: status {r.status!r}, handler set {status}; schedule {schedule}')
+        leaked = [(k, v) for k, v in r.headers if k in BAD[status]]
+        if leaked:
+            raise CheckFailure(f'threaded: {status} response emitted blacklisted headers {leaked!r} while another thread was serving a request; order={order} schedule {schedule}')
+        if ('X-Keep', 'v-X-Keep') not in r.headers:
+            raise CheckFailure(f'threaded: {status} response lost its own header X-Keep: {r.headers!r}; schedule {schedule}')
+        o = res['ok']
+        if o.code != 200 or ('Content-Language', 'en') not in o.headers or o.header('X-Other') != 'é'.encode('utf8').decode('latin1'):
+            raise CheckFailure(f'threaded: the plain request got {o.status!r} {o.headers!r}; schedule {schedule}')
+        ctx.evals += 1
+        ctx.nontrivial('thr:' + repr((status, order, schedule)))
+        return sc.yields
+    for order in (0, 1):
+        y0 = run(order, [[0, BIG]])[0]
+        for k in range(0, y0 + 1):
+            run(order, [[0, k], [1, BIG], [0, BIG]])
+        ctx.count('threaded_single_preemption_schedules', y0 + 1)
+
+
 def run(ctx):
+    if ctx.shard == 0:
+        for st_ in (304, 204):
+            ctx.guarded(check_threaded, {'threaded': True, 'status': st_})
     for name, case in load_corpus(ID):
         ctx.guarded(check_case, case)
         ctx.count('corpus')
@@ -386,4 +444,6 @@ def run(ctx):
 
 
 def replay(ctx, case):
+    if 'threaded' in case:
+        return check_threaded(ctx, case)
     check_case(ctx, case)
